@@ -411,6 +411,17 @@ func (s *MemoryStore) RevokeAccessToken(ctx context.Context, requestID string) e
 			return err
 		}
 	}
+
+	// The index only remembers the latest signature of a request. A request can own more than one access
+	// token (the hybrid flow issues one next to the code and another one when the code is redeemed), and
+	// revoking by request ID has to cover all of them.
+	s.accessTokensMutex.Lock()
+	defer s.accessTokensMutex.Unlock()
+	for signature, req := range s.AccessTokens {
+		if req.GetID() == requestID {
+			delete(s.AccessTokens, signature)
+		}
+	}
 	return nil
 }
 
